@@ -63,7 +63,7 @@ struct CaseResult {
   int completed_flips = 0, seq_teardown_pending = 0, dw_events = 0, swaps = 0, moved_calls = 0, after_release_calls = 0;
   int throwing_calls = 0, tolerant = 0, trace_depth2_calls = 0, culprit_not_newest = 0;
   int call_after_destroy_dependency = 0;
-  int flag_flips = 0, eol_nontrivial = 0, skipped_pending = 0;
+  int flag_flips = 0, eol_nontrivial = 0, skipped_pending = 0, scoped_blocks = 0;
   uint32_t case_mask = 0;
 };
 
@@ -77,6 +77,8 @@ class Interp {
   CaseResult res;
   bool stop = false;
   size_t cur = 0;
+  bool injected = false, in_composite = false;   // sub-steps of a scoped block: the real side already ran
+  CallResult inj_got;
   std::vector<OpTrace> optrace;   // one entry per operation of the case (not the teardown)
   // history invariant for C05 (independent of the model's bookkeeping): registration order per sequence object
   std::map<std::pair<int, int>, std::vector<int>> registered;  // (seq slot, gen) -> eids in registration order
@@ -94,11 +96,11 @@ class Interp {
   }
 
   // ---- location lookup ------------------------------------------------------------------
-  int pre_slot_eid[NSLOT + NLIT];
+  int pre_slot_eid[NALL];
   int pre_mon_eid[NDW][NMON];
   int eid_at(const std::string& file, unsigned long line) const {
     // expectations alive before or after the current operation (a release removes it from the model first)
-    for (int s = 0; s < NSLOT + NLIT; ++s) {
+    for (int s = 0; s < NALL; ++s) {
       int e = m.slot_eid[s] >= 0 ? m.slot_eid[s] : pre_slot_eid[s];
       if (e >= 0 && file == real::slot_file(s) && line == real::exp_line(s)) return e;
     }
@@ -112,7 +114,7 @@ class Interp {
   std::vector<ParsedLoc> find_locs(const std::string& text) const {
     std::vector<ParsedLoc> out;
     std::set<std::string> files;
-    for (int s = 0; s < NSLOT + NLIT; ++s) files.insert(real::slot_file(s));
+    for (int s = 0; s < NALL; ++s) files.insert(real::slot_file(s));
     files.insert(real::mon_file());
     for (auto& f : files) {
       size_t pos = 0;
@@ -390,8 +392,60 @@ class Interp {
     }
   }
 
+  // ---- scoped block (composite) -------------------------------------------------------------
+  struct ScopedCtx { Interp* self; Op createA, createB; bool hasB; std::vector<Op> calls; };
+  static void scoped_step(void* vctx, int kind, int index, const CallResult& r) {
+    auto* c = static_cast<ScopedCtx*>(vctx);
+    Interp& in = *c->self;
+    if (in.stop) { in.check_severity_only(); real::g_log.clear(); return; }
+    in.injected = true;
+    in.inj_got = r;
+    switch (kind) {
+      case 0: in.run_op(c->createA); break;
+      case 1: in.run_op(c->createB); break;
+      case 2: in.run_op(c->calls[static_cast<size_t>(index)]); break;
+      case 3: in.run_op(Op{O_RELEASE, {NSLOT + NLIT + 1}}); break;
+      case 4: in.run_op(Op{O_RELEASE, {NSLOT + NLIT}}); break;
+    }
+    in.injected = false;
+    real::g_log.clear();
+  }
+  static Op scoped_create_op(int scslot, int obj, int form) {
+    Op o; o.kind = O_CREATE; o.a.assign(CA_N, 0);
+    o.a[CA_SLOT] = NSLOT + NLIT + scslot; o.a[CA_OBJ] = obj; o.a[CA_LIT] = NLITNAMED + form % (NLITALL - NLITNAMED);
+    const LitForm& f = lit_forms()[o.a[CA_LIT]];
+    o.a[CA_FUNC] = f.func; o.a[CA_LO] = static_cast<int>(f.lo); o.a[CA_HI] = f.hi == INF ? -1 : static_cast<int>(f.hi);
+    o.a[CA_M0K] = f.m0.kind; o.a[CA_M0V] = f.m0.val; o.a[CA_M1K] = f.m1.kind; o.a[CA_M1V] = f.m1.val;
+    o.a[CA_W0] = f.with0; o.a[CA_X0] = f.fx0;
+    return o;
+  }
+  void run_scoped(const Op& o) {
+    if (!m.applicable(o)) { res.noops++; return; }
+    res.scoped_blocks++;
+    ScopedCtx c;
+    c.self = this;
+    c.hasB = o.at(2) >= 0;
+    c.createA = scoped_create_op(0, o.at(0), o.at(1));
+    if (c.hasB) c.createB = scoped_create_op(1, o.at(0), o.at(2));
+    int n = std::min(o.at(3), 4);
+    std::vector<real::ScopedCall> rc;
+    for (int i = 0; i < n; ++i) {
+      int fn = o.at(4 + 2 * static_cast<size_t>(i)) % 2 ? F_v : F_f, a0 = o.at(5 + 2 * static_cast<size_t>(i));
+      c.calls.push_back(Op{O_CALL, {o.at(0), fn, a0, 0}});
+      rc.push_back(real::ScopedCall{fn, a0, 0});
+    }
+    Spec A = Model::spec_of(c.createA), B;
+    A.eid = m.next_eid;
+    if (c.hasB) { B = Model::spec_of(c.createB); B.eid = A.eid + 1; }
+    real::g_log.clear();
+    in_composite = true;
+    real::scoped_run(o.at(0), &A, c.hasB ? &B : nullptr, rc, &Interp::scoped_step, &c);
+    in_composite = false;
+  }
+
   // ---- run -------------------------------------------------------------------------------
   void run_op(const Op& o) {
+    if (o.kind == O_SCOPED) { run_scoped(o); return; }
     Model before_applicable = Model();  // unused placeholder to keep structure simple
     (void)before_applicable;
     if (!m.applicable(o)) { res.noops++; return; }
@@ -411,14 +465,14 @@ class Interp {
     } else if (o.kind == O_DESTROY_MOCK) {
       for (int f = 0; f < NFUNC; ++f) for (int eid : m.obj[o.at(0)].active[f]) if (!m.E.at(eid).satisfied()) { res.eol_nontrivial++; break; }
     }
-    for (int q = 0; q < NSLOT + NLIT; ++q) pre_slot_eid[q] = m.slot_eid[q];
+    for (int q = 0; q < NALL; ++q) pre_slot_eid[q] = m.slot_eid[q];
     for (int d = 0; d < NDW; ++d) for (int k = 0; k < NMON; ++k) pre_mon_eid[d][k] = m.mon_eid[d][k];
     Expect x = m.step(o);
-    real::g_log.clear();
-    CallResult got;
+    if (!injected) real::g_log.clear();
+    CallResult got = inj_got;
     int cres = 0;
     bool swap_good = true;
-    switch (o.kind) {
+    if (!injected) switch (o.kind) {
       case O_CREATE: { Spec s = Model::spec_of(o); s.eid = eid0; cres = real::create(s); break; }
       case O_RELEASE: real::release(o.at(0)); break;
       case O_CALL: got = real::call(o.at(0), o.at(1), o.at(2), o.at(3)); break;
@@ -449,8 +503,8 @@ class Interp {
     if (o.kind == O_SWAP_REPORTER && !swap_good) mismatch(CAT_SWAP, "set_reporter did not return the previously installed reporter(s)");
     if (cur < optrace.size()) {
       optrace[cur].got = got;
-      if (o.kind == O_CREATE && cres == 0) optrace[cur].created_eid = eid0;
-      for (auto& xr : x.reports) if (xr.kind == K_FORBIDDEN) { if (x.nested.empty()) optrace[cur].forbid_eid = xr.eid; else optrace[cur].forbid_nested_eid = xr.eid; }
+      if (o.kind == O_CREATE && cres == 0 && !in_composite) optrace[cur].created_eid = eid0;
+      for (auto& xr : x.reports) if (xr.kind == K_FORBIDDEN) { if (x.nested.empty() && !in_composite) optrace[cur].forbid_eid = xr.eid; else optrace[cur].forbid_nested_eid = xr.eid; }
     }
     if (o.kind == O_CALL) {
       res.calls++;
@@ -665,6 +719,7 @@ class Interp {
   // liveness is harness-controlled, so the model's applicability test stays exact even when its predictions are not
   void exec_unchecked(const Op& o) {
     if (!m.applicable(o)) return;
+    if (o.kind == O_SCOPED) { bool was = stop; stop = true; run_scoped(o); stop = was; check_severity_only(); return; }
     int eid0 = m.next_eid;
     m.step(o);
     real::g_log.clear();
